@@ -398,7 +398,23 @@ func (x *Exec) instrMods(in ssa.Instruction, li *loopInfo, seen map[*ssa.Functio
 			li.modAll = true
 		case al != nil:
 			if al.Parent() == x.fn {
-				li.modCells[al] = append(li.modCells[al], p)
+				dup := false
+				for _, q := range li.modCells[al] {
+					if len(q) == len(p) {
+						same := true
+						for k := range q {
+							if q[k] != p[k] {
+								same = false
+							}
+						}
+						if same {
+							dup = true
+						}
+					}
+				}
+				if !dup {
+					li.modCells[al] = append(li.modCells[al], p)
+				}
 			}
 		default:
 			for _, k := range hk {
